@@ -231,13 +231,25 @@ class C13(ProgramProperty):
         if 'C13-F6' in ids and sig.endswith(':A') and d.get('shared_withitem_range') and (sig.startswith(('linear_locator_panics', 'linear_differs_from_random')) or
                                                                                           sig.startswith('panic_or_crash') and ' -> ' in str(d.get('reply'))):
             return 'C13-F6'
-        if 'C13-F2' in ids and sig.startswith('linear_differs_from_random') and 'FormattedValue' in d.get('path', '') and 'JoinedStr' in d.get('path', ''):
+        if 'C13-F2' in ids and sig.startswith('linear_differs_from_random') and 'FormattedValue' in d.get('path', '') and 'JoinedStr' in d.get('path', '') \
+                and self.has_concatenation(t):
+            # (the finding is about implicitly concatenated literals: without one in the text it is something else)
             return 'C13-F2'
         if 'C13-F3' in ids and '\r\n' in t and re.search(r'''[fF][rR]?['"]|[rR][fF]['"]''', t) and \
                 (sig.startswith('panic_or_crash') and 'char boundary' in str(d.get('reply')) or 'JoinedStr' in d.get('path', '') or
                  sig.startswith(('linear_locator_panics', 'location_differs_from_cpython'))):
             return 'C13-F3'
         return None
+
+    _CONCAT = None
+
+    @classmethod
+    def has_concatenation(cls, t):
+        """two string literals with nothing but layout between them, somewhere in the text"""
+        from .c02 import C02
+        if cls._CONCAT is None:
+            C13._CONCAT = re.compile(C02._STR.pattern + rb'(?:' + C02._LAY.pattern + rb')?' + C02._STR.pattern)
+        return bool(cls._CONCAT.search(t.encode('utf-8')))
 
     @staticmethod
     def class_kw_before_star(t):
